@@ -16,6 +16,7 @@ structure Tok where
   audience : List String := []
   issuer : String := ""          -- the issuer the token response came from
   refresh : Bool := false        -- a refresh token (else an access token)
+  jwt : Bool := false            -- an access token handed out as a JWT (self-contained: it names its issuer in `iss`), else opaque
   grant : String := ""           -- tokens of one token response share it
   exp : Int := 0                 -- the expiration the storage gave the token (ns since the epoch; 0 = not known to the observer)
   live : Bool := true
@@ -24,6 +25,9 @@ structure Tok where
 structure MonState where
   base : C04.MonState := {}
   toks : List Tok := []
+  /-- the provider derives its issuer from the request and its storage keeps ONE token table for all of these issuers (it does not
+      partition its records by `op.IssuerFromContext(ctx)`; the documented Storage contract does not demand that) -/
+  flat : Bool := false
   deriving Repr, Inhabited
 
 inductive Ev
@@ -60,14 +64,24 @@ def pastExpiry (t : Tok) (now : Int) : Bool := t.exp != 0 && decide (now > t.exp
     provider may already treat a self-contained token as expired; "still live" is only demanded of a token before it -/
 def lastSecond (t : Tok) (now : Int) : Bool := t.exp != 0 && decide (now + 1000000000 > t.exp)
 
+/-- is the token a token of the provider AT issuer `iss`: it was issued there - or it carries no issuer (an opaque access token, a
+    refresh token) and the storage is flat, i.e. keeps one table for all issuers of the provider and finds it under each of them.
+    A JWT access token names its issuer and belongs to that issuer alone, whatever the storage does -/
+def visibleAt (m : MonState) (t : Tok) (iss : String) : Bool := t.issuer == iss || (m.flat && !(t.jwt && !t.refresh))
+
 /-- a token may be honoured at `iss` only if the provider issued it, there, and it is neither expired, revoked nor logged out;
-    expired: the observer was told so, or the clock of the request is past the expiration the storage gave the token -/
+    expired: the observer was told so, or the clock of the request is past the expiration the storage gave the token.
+    "There" (`token-of-other-issuer`): a JWT access token names its issuer, and the LIBRARY checks that name against the issuer the
+    request is addressed to - so the clause holds for JWT access tokens over EVERY storage.  An opaque access token and a refresh token
+    carry no issuer: for them the storage is the only check, a flat storage (one table for all issuers of the provider) finds them under
+    every issuer, and honouring them there is the storage's doing, not the library's - on flat-storage histories the clause is therefore
+    raised for JWT access tokens only (over a partitioning storage, as before, for every token kind) -/
 def honourable (m : MonState) (now : Int) (ep unknown dead iss tok : String) (wantAccess : Bool) : Option String :=
   match find m tok with
   | none => some (ep ++ unknown)
   | some t =>
     if wantAccess && t.refresh then some (ep ++ unknown)
-    else if t.issuer != iss then some (ep ++ ":token-of-other-issuer")
+    else if !visibleAt m t iss then some (ep ++ ":token-of-other-issuer")
     else if !t.live then some (ep ++ dead)
     else if pastExpiry t now then some (ep ++ ":expired-token-honoured")
     else none
@@ -101,7 +115,7 @@ def judge (m : MonState) (now : Int) (e : Ev) : Option String :=
     match find m tok with
     | none => if (callerOf m now p true).isSome && status != 200 && !fault then some "revoke:unknown-token-not-200" else none
     | some t =>
-      if t.issuer != iss then none          -- another issuer's token: unknown there, no demand on the answer
+      if !visibleAt m t iss then none       -- another issuer's token: unknown there, no demand on the answer
       else match callerOf m now p true with
       | none => if performed then some "revoke:by-unauthenticated-caller" else none
       | some c =>
@@ -139,7 +153,7 @@ def update (m : MonState) (now : Int) (e : Ev) : MonState :=
   | .revoke iss p tok status _ _ _ _ =>
     match find m tok, callerOf m now p true with
     | some t, some c =>
-      if c.id == t.client && status == 200 && t.issuer == iss then
+      if c.id == t.client && status == 200 && visibleAt m t iss then
         -- revoked by its owner: the token is dead from now on; a refresh token takes the access token of its grant with it
         kill m fun x => x.label == tok || (t.refresh && x.grant == t.grant)
       else m
@@ -148,7 +162,8 @@ def update (m : MonState) (now : Int) (e : Ev) : MonState :=
     -- a logout ends the session at the issuer it is addressed to (another issuer of the same provider is another tenant).
     -- An operation that answered success has taken effect: once the success redirect was given, the tokens of that session
     -- must not be honoured any more - whatever happened between the provider and its storage
-    if status < 400 then kill m fun x => x.subject == sub && x.client == cl && x.issuer == iss else m
+    -- (a flat storage has ONE session per user and client: it ends for all issuers of the provider)
+    if status < 400 then kill m fun x => x.subject == sub && x.client == cl && (x.issuer == iss || m.flat) else m
   | .refresh _ tok success rotated =>
     match find m tok with
     | some t => if success && rotated then kill m (·.grant == t.grant) else m     -- replaced by the tokens of the response
